@@ -34,10 +34,10 @@ import (
 	"time"
 
 	zed "github.com/brimdata/super"
-	sortop "github.com/brimdata/super/runtime/sam/op/sort"
 	"github.com/brimdata/super/order"
 	"github.com/brimdata/super/pkg/field"
 	"github.com/brimdata/super/runtime/sam/expr/function"
+	sortop "github.com/brimdata/super/runtime/sam/op/sort"
 	"github.com/brimdata/super/zbuf"
 	"github.com/brimdata/super/zson"
 
@@ -343,7 +343,7 @@ func orderPhase(c *core.Ctx, u *universe, rel *orderRel, o tlcOut) error {
 				c.Violate(sigF1, fmt.Sprintf("compare(%s, %s) = 0 and compare(%s, %s) = 0 but compare(%s, %s) = %d: numbers of different kinds are compared through float64, so the induced equivalence is not transitive above 2^53", va.ZSON, vb.ZSON, vb.ZSON, vc.ZSON, va.ZSON, vc.ZSON, w.AC), w)
 			}
 			perSig[sigF1]++
-			if !f1sort {
+			if !f1sort && w.AC > 0 { // a ~ b ~ c but a > c: [a, b, c] has no sorted and stable order
 				f1sort = true
 				sortLevelF1(c, u, va, vb, vc)
 			}
